@@ -535,6 +535,9 @@ func (g *G) genWorld() {
 					continue
 				}
 				kind := "tls"
+				if g.chance("chainsecret", 25) {
+					kind = "tlschain" // leaf followed by its issuer, the usual content of an issued certificate
+				}
 				if g.P.MissingRefs && g.chance("badsecret", 8) {
 					kind = g.pick("badkind", []string{"bad", "mismatch"})
 				}
@@ -1066,7 +1069,7 @@ func (g *G) rotateTogether() []world.Op {
 	}
 	var tls []*world.Obj
 	for _, o := range g.existing(world.KSecret) {
-		if o.SecretKind == "tls" {
+		if o.SecretKind == "tls" || o.SecretKind == "tlschain" {
 			tls = append(tls, o)
 		}
 	}
